@@ -79,6 +79,23 @@ def new_scalars(mod):
             count[nm] = count.get(nm, 0) + 1
             if nm not in known and _immutable(st.value):
                 out[nm] = st.value
+        elif isinstance(st, ast.Assign) and len(st.targets) == 1 and isinstance(st.targets[0], (ast.Tuple, ast.List)) \
+                and all(isinstance(e, ast.Name) for e in st.targets[0].elts):
+            # A, B, C = range(3)  /  A, B = 0, 1
+            names = [e.id for e in st.targets[0].elts]
+            vals = None
+            v = st.value
+            if isinstance(v, ast.Call) and isinstance(v.func, ast.Name) and v.func.id == "range" and not v.keywords \
+                    and all(isinstance(a, ast.Constant) and type(a.value) is int for a in v.args) and 1 <= len(v.args) <= 3:
+                vals = [ast.Constant(i) for i in range(*[a.value for a in v.args])]
+            elif isinstance(v, (ast.Tuple, ast.List)) and all(_immutable(e) for e in v.elts):
+                vals = list(v.elts)
+            for nm in names:
+                count[nm] = count.get(nm, 0) + 1
+            if vals is not None and len(vals) == len(names):
+                for nm, val in zip(names, vals):
+                    if nm not in known:
+                        out[nm] = val
     for st in ast.walk(mod.tree):
         if isinstance(st, ast.Global):
             for nm in st.names:
